@@ -266,6 +266,8 @@ func (u *Unit) frameCheckComps(fr *Frame, pc Term, comps []compRef, pos token.Po
 var assignSetCache = map[*FuncSpec]map[string]bool{}
 
 func (u *Unit) assignSet() map[string]bool {
+	globalMu.Lock()
+	defer globalMu.Unlock()
 	if s, ok := assignSetCache[u.spec]; ok {
 		return s
 	}
@@ -457,7 +459,12 @@ func (fr *Frame) buildCandidates(li *loopInfo, phiEntry map[*ssa.Phi]Value) []*C
 			mentionsHdr := false
 			for id := range ids {
 				if _, ok := probe[id]; !ok {
-					if _, isConst := u.eng.specs.Consts[id]; !isConst {
+					_, isConst := u.eng.specs.Consts[id]
+					isMember := false
+					if u.fn.Pkg != nil {
+						_, isMember = u.fn.Pkg.Members[id]
+					}
+					if !isConst && !isMember {
 						resolvable = false
 					}
 				}
@@ -472,6 +479,7 @@ func (fr *Frame) buildCandidates(li *loopInfo, phiEntry map[*ssa.Phi]Value) []*C
 				continue
 			}
 			_ = mentionsHdr
+			u.placedInv[inv.Text] = true
 			add(inv.Text, false, func(fr *Frame, st *State, phi map[*ssa.Phi]Value) (Term, error) {
 				env := &SpecEnv{u: u, st: st, old: u.entrySt, names: fr.invNames(li, st, phi)}
 				return env.evalBool(inv.E)
